@@ -29,21 +29,8 @@ Definition storage_ok (p : pstate) : Prop :=
   | _, _, _ => True
   end.
 
-(* the patch: reconcileLogWithSnapshot, called first in newCore *)
-Definition reconcile (s : node) : R node :=
-  match p_snap (n_p s), log_first (p_log (n_p s)), log_last (p_log (n_p s)) with
-  | Some m, Some fi, Some li =>
-      if (li <? sn_index m) || (sn_index m + 1 <? fi) then do_mut (MTruncate 0) s
-      else if fi <=? sn_index m then
-        t <- log_term (n_p s) (sn_index m) ;;
-        if negb (t =? sn_term m) then do_mut (MTruncate 0) s else Ret s
-      else Ret s
-  | _, _, _ => Ret s
-  end.
-
-Definition new_core_fixed (id : nid) (cfg : config) (p : pstate) : R node :=
-  s <- reconcile (blank_node id cfg p) ;;
-  new_core id cfg (n_p s).
+(* reconcileLogWithSnapshot is part of Core.new_core now (fix F10 committed) *)
+Definition new_core_fixed := new_core.
 
 (* ---------------------------------------------------------------- truncating a well-formed log at 0 empties it *)
 Lemma chain_ge prev l : chain prev l -> Forall (fun e => e_index prev < e_index e) l.
@@ -92,12 +79,15 @@ Proof.
 Qed.
 
 Lemma new_core_ls id cfg p s1 :
-  new_core id cfg p = Ret s1 -> p_log (n_p s1) = p_log p /\ p_snap (n_p s1) = p_snap p.
+  new_core id cfg p = Ret s1 ->
+  exists r, reconcile (blank_node id cfg p) = Ret r /\ p_log (n_p s1) = p_log (n_p r) /\ p_snap (n_p s1) = p_snap (n_p r).
 Proof.
-  unfold new_core. destruct (p_snap p) eqn:Es.
-  - destruct (commit_up_to (set_conf (blank_node id cfg p) (init_latest_conf p)) (sn_index s)) eqn:E; simpl; try discriminate.
-    intro H. inversion H. simpl. apply commit_up_to_ls in E. simpl in E. rewrite Es in E. exact E.
-  - simpl. intro H. inversion H. simpl. auto.
+  unfold new_core. destruct (reconcile (blank_node id cfg p)) as [r | |] eqn:Er; simpl; try discriminate.
+  intro H. exists r. split; [reflexivity|].
+  destruct (p_snap (n_p r)) eqn:Es.
+  - destruct (commit_up_to (set_conf (blank_node id cfg (n_p r)) (init_latest_conf (n_p r))) (sn_index s)) eqn:E; simpl in H; try discriminate.
+    inversion H. simpl. apply commit_up_to_ls in E. simpl in E. rewrite Es in E. exact E.
+  - simpl in H. inversion H. simpl. auto.
 Qed.
 
 Lemma storage_ok_ext p q : p_log q = p_log p -> p_snap q = p_snap p -> storage_ok p -> storage_ok q.
@@ -136,34 +126,18 @@ Qed.
 Theorem new_core_fixed_consistent id cfg p s1 :
   log_wf (p_log p) -> new_core_fixed id cfg p = Ret s1 -> storage_ok (n_p s1).
 Proof.
-  intros Hwf. unfold new_core_fixed.
-  destruct (reconcile (blank_node id cfg p)) as [s | c | q] eqn:E; simpl; try discriminate.
-  intro H. apply reconcile_ok in E; auto.
-  destruct (new_core_ls _ _ _ _ H) as [A B]. eapply storage_ok_ext; eauto.
+  intros Hwf H. unfold new_core_fixed in H. destruct (new_core_ls _ _ _ _ H) as [r [Er [A B]]].
+  apply reconcile_ok in Er; auto. eapply storage_ok_ext; eauto.
 Qed.
 
-(* the repaired start-up keeps the durable term and vote (it only truncates the log) *)
 Lemma new_core_fixed_pext id cfg p :
   match new_core_fixed id cfg p with
   | Ret s' => pext p (n_p s')
   | _ => True
   end.
 Proof.
-  unfold new_core_fixed.
-  assert (H : rext (blank_node id cfg p) (reconcile (blank_node id cfg p))).
-  { unfold reconcile.
-    destruct (p_snap (n_p (blank_node id cfg p))); [| apply rext_ret_same; [reflexivity | apply frame_refl]].
-    destruct (log_first (p_log (n_p (blank_node id cfg p)))); [| apply rext_ret_same; [reflexivity | apply frame_refl]].
-    destruct (log_last (p_log (n_p (blank_node id cfg p)))); [| apply rext_ret_same; [reflexivity | apply frame_refl]].
-    match goal with |- rext _ (if ?c then _ else _) => destruct c end; [apply do_mut_keep; exact I|].
-    match goal with |- rext _ (if ?c then _ else _) => destruct c end; [| apply rext_ret_same; [reflexivity | apply frame_refl]].
-    apply rext_bind_pure; [apply pure_log_term|]. intros t _.
-    destruct (negb (t =? sn_term s)); [apply do_mut_keep; exact I | apply rext_ret_same; [reflexivity | apply frame_refl]]. }
-  destruct (reconcile (blank_node id cfg p)) as [s | c | q]; simpl in *; auto.
-  destruct H as [Hp _].
-  pose proof (new_core_pext id cfg (n_p s)) as H2.
-  destruct (new_core id cfg (n_p s)); simpl in *; auto.
-  destruct H2 as [A _]. eapply pext_trans; eauto.
+  unfold new_core_fixed. pose proof (new_core_pext id cfg p) as H.
+  destruct (new_core id cfg p); simpl in *; auto. destruct H; auto.
 Qed.
 
 (* ---------------------------------------------------------------- T2: where can Fatal 6 come from *)
